@@ -115,7 +115,7 @@ def eff_pool(X, Y):
         ((eff("assign", c(X), I(2)),), 0),
         ((eff("inc", m, ("r", 1, 2)),), 0),
         # two increases of ONE parameterised ground fluent in one action
-        ((eff("inc", c(X), I(1)), eff("inc", c(X), I(1), b)), 0),
+        ((eff("inc", c(X), I(1)), eff("inc", c(X), I(1), b)), 1),
     ]
 
 
